@@ -47,3 +47,6 @@ if __name__ == '__main__':
         print('%s: %d obligations, %d discharged, paths=%d, %.1fs' % (key, len(res), len(res) - len(bad), rep.paths, time.time() - t0))
         for k, v in sorted(bad.items()):
             print('   ', v[0].upper(), k.split('/', 1)[1], v[1], v[2], v[3][:300])
+        for k, v in sorted(res.items()):
+            if v[0] == 'unsat' and (v[1] != 'z3-ematching' or v[2] > 5):
+                print('    slow/fallback:', k.split('/', 1)[1], v[1], v[2])
